@@ -49,12 +49,33 @@ Qed.
 Definition handled_name (n : string) : bool := Route.is_ctrl n || Route.is_swapk n.
 Fixpoint nodupb (l : list nat) : bool :=
   match l with [] => true | a :: r => negb (existsb (Nat.eqb a) r) && nodupb r end.
+Definition rot1 (n : string) : bool := mem n ["RX"; "RY"; "RZ"; "IDLE"].
 Definition kindshape (g : mgate) : bool :=
   if Route.is_ctrl (gname g) then
     (List.length (gcontrols g) =? 1)%nat && (List.length (gtargets g) =? 1)%nat && match gargs g with [] => true | _ => false end
   else if Route.is_swapk (gname g) then
     (List.length (gcontrols g) =? 0)%nat && (List.length (gtargets g) =? 2)%nat && match gargs g with [] => true | _ => false end
+  else if rot1 (gname g) then (List.length (gcontrols g) =? 0)%nat && (List.length (gtargets g) =? 1)%nat
   else (nqubits g <=? 1)%nat.
+
+Lemma kindshape_len g : kindshape g = true -> List.length (qubits g) <= 2.
+Proof.
+  unfold kindshape, nqubits, qubits. rewrite app_length. intros Hk.
+  destruct (Route.is_ctrl (gname g)); [|destruct (Route.is_swapk (gname g)); [|destruct (rot1 (gname g))]].
+  - apply andb_prop in Hk. destruct Hk as [Hk _]. apply andb_prop in Hk. destruct Hk as [H1 H2].
+    apply Nat.eqb_eq in H1. apply Nat.eqb_eq in H2. lia.
+  - apply andb_prop in Hk. destruct Hk as [Hk _]. apply andb_prop in Hk. destruct Hk as [H1 H2].
+    apply Nat.eqb_eq in H1. apply Nat.eqb_eq in H2. lia.
+  - apply andb_prop in Hk. destruct Hk as [H1 H2]. apply Nat.eqb_eq in H1. apply Nat.eqb_eq in H2. lia.
+  - apply Nat.leb_le in Hk. lia.
+Qed.
+Lemma kindshape_small g : kindshape g = true -> handled_name (gname g) = false -> nqubits g <= 1.
+Proof.
+  unfold kindshape, nqubits, handled_name. intros Hk Hh. apply orb_false_iff in Hh. destruct Hh as [E1 E2]. rewrite E1, E2 in Hk.
+  destruct (rot1 (gname g)).
+  - apply andb_prop in Hk. destruct Hk as [H1 H2]. apply Nat.eqb_eq in H1. apply Nat.eqb_eq in H2. lia.
+  - apply Nat.leb_le in Hk. exact Hk.
+Qed.
 Definition shape_ok (kq : nat) (o : mgate) : bool :=
   forallb (fun q => Nat.ltb q kq) (qubits o) && nodupb (qubits o) && kindshape o.
 Definition check_shape (c : cfg) (k : kd) : bool :=
